@@ -4,7 +4,6 @@ CONSTANTS
   Readers = {1, 2}
   MaxWrites = 3
   MaxCkpt = 3
-  MaxReaderStarts = 2
   ReaderPoints = {"idle"}
   CanonicalPages = TRUE
   DisarmOnTruncate = FALSE
